@@ -2,7 +2,9 @@
 
 Protocol: see lean/Driver/Signals.lean.  Observables are named by small ints (attribute `o<k>`),
 handlers by small ints (even = plain function, odd = bound method); the harness holds the only
-strong reference to every handler, so `drop h` kills it at once (refcounting).
+strong reference to every handler, so `drop h` kills it at once (refcounting).  A handler with a program
+(`prog:h:ACT,…` in the header) makes those registry calls — observe / unobserve / clear_all_subscriptions — every
+time it is called, while the notification that called it is still going on.
 """
 from __future__ import annotations
 
@@ -10,7 +12,8 @@ from . import core
 
 TYPES = ["change", "append", "insert", "remove", "replace"]
 KIND_TYPES = {"obs": ["change"], "lst": ["remove", "replace", "change", "insert", "append"]}
-ERR = {ValueError: "err Value", KeyError: "err Key", IndexError: "err Index", AttributeError: "err Attr"}
+ERR = {ValueError: "err Value", KeyError: "err Key", IndexError: "err Index", AttributeError: "err Attr",
+       ZeroDivisionError: "err Zero"}     # err Zero: a Computed's function raised on its own (C17, `( fail )`)
 
 
 def _mesa():
@@ -46,9 +49,15 @@ def canon_idx(i):
     if i is None:
         return "N"
     if isinstance(i, slice):
-        assert i.step is None
-        return f"{i.start}..{i.stop}"
+        if i.step is None and i.start is not None and i.stop is not None:
+            return f"{i.start}..{i.stop}"
+        return "..".join("N" if x is None else str(x) for x in (i.start, i.stop, i.step))
     return str(i)
+
+
+def oi(s):
+    """an optional int on a protocol line (N = None)"""
+    return None if s == "N" else int(s)
 
 
 def parse_ints(s):
@@ -77,18 +86,28 @@ class SigImpl:
         self.ms = ms
         toks = header.split()[2:]
         self.natural = "natural" in toks
+        self.progs = {}
         groups, cur = [], []
         for t in toks:
             if t == "natural":
+                continue
+            if t.startswith("prog:"):
+                _, h, acts = t.split(":")
+                self.progs[int(h)] = acts.split(",")
                 continue
             if t == "|":
                 groups.append(cur)
                 cur = []
                 continue
+            if t.startswith("ovr:"):
+                # this (base) class defines the name as well; the more derived definition overrides it
+                _, n, k = t.split(":")
+                cur.append((int(n), k, None))
+                continue
             n, k, ts = t.split(":")
             cur.append((int(n), k, ts.split(",")))
         groups.append(cur)
-        self.decls = [d for g in groups for d in g]
+        self.decls = [d for g in groups for d in g if d[2] is not None]
         self.kind = {n: k for n, k, _ in self.decls}
         impl = self
 
@@ -98,6 +117,9 @@ class SigImpl:
             ns = {}
             for n, k, ts in groups[gi]:
                 d = ms.Observable() if k == "obs" else ms.ObservableList()
+                if ts is None:          # overridden further down the hierarchy
+                    ns[f"o{n}"] = d
+                    continue
                 assert set(ts) == set(d.signal_types), (ts, d.signal_types)
                 if not self.natural:
                     # pin the iteration order of the signal-type set (hash-seed dependent in CPython):
@@ -154,6 +176,16 @@ class SigImpl:
                canon_idx(signal.get("index")))
         self.out.append(rec)
         self.trace.append(("deliver",) + rec + (owner_ok,))
+        # the handler's own registry calls, made while it is being notified
+        for act in self.progs.get(hid, ()):
+            a = act.split(".")
+            self.trace.append(("act", hid, act))
+            if a[0] == "c":
+                self.inst.clear_all_subscriptions(self.sel_name(a[1]))
+            else:
+                keepalive, h = self.handler(int(a[3]))
+                (self.inst.observe if a[0] == "o" else self.inst.unobserve)(self.sel_name(a[1]), self.sel_type(a[2]), h)
+                del h, keepalive
 
     def on_notify(self, inst, name, old, new, typ, kw):
         self.trace.append(("notify", int(name[1:]), typ, canon_val(old), canon_val(new), canon_idx(kw.get("index")),
@@ -257,6 +289,10 @@ class SigImpl:
                         del lst[int(w[2])]
                     elif k == "ldelslice":
                         del lst[int(w[2]):int(w[3])]
+                    elif k == "lsetslicex":
+                        lst[slice(oi(w[2]), oi(w[3]), oi(w[4]))] = parse_ints(w[5])
+                    elif k == "ldelslicex":
+                        del lst[slice(oi(w[2]), oi(w[3]), oi(w[4]))]
                     elif k == "linsert":
                         lst.insert(int(w[2]), int(w[3]))
                     elif k == "lappend":
@@ -315,6 +351,16 @@ def gen_sig_header(R, natural=None):
             toks.append("|")
         toks.append(f"{nm}:{k}:{','.join(ts)}")
         decls.append((nm, k))
+    if cuts and R.random() < 0.3:
+        # a base class defines one of the names of a more derived class again (mostly with the other kind): the
+        # definition in effect is the most derived one
+        i = R.randrange(0, cuts[-1])                         # a declaration that is not in the last class
+        later = [c for c in cuts if c > i]
+        toks.append(f"ovr:{names[i]}:{R.choice(['obs', 'lst', 'lst' if kinds[i] == 'obs' else 'obs'])}")
+        if R.random() < 0.5 and len(later) > 1:
+            # ... in the class in between rather than in the last one
+            at = [j for j, t in enumerate(toks) if t == "|"][-1]
+            toks.insert(at, toks.pop())
     if natural:
         toks.append("natural")
     return "scenario sig " + " ".join(toks), decls
@@ -334,8 +380,15 @@ def gen_list_op(R, nm, shadow):
     def vals():
         return [val() for _ in range(R.choice([0, 1, 2, 2, 3]))]
 
+    def oidx():
+        return "N" if R.random() < 0.3 else str(idx())
+
+    def slc():
+        """slice(A, B, C): open bounds, steps -3..3 (0 is rejected), mostly a step other than 1"""
+        return f"{oidx()} {oidx()} {R.choice(['N', '1', '2', '2', '3', '-1', '-1', '-2', '-3', '0'])}"
+
     k = R.choice(["lassign", "lset", "lsetslice", "ldel", "ldelslice", "linsert", "lappend", "lappend", "lpop", "lremove",
-                  "lextend", "liadd", "lreverse", "lclear", "lset", "ldel", "lpop"])
+                  "lextend", "liadd", "lreverse", "lclear", "lset", "ldel", "lpop", "lsetslicex", "ldelslicex"])
     if d is None and R.random() < 0.85:
         k = "lassign"
     if k == "lassign":
@@ -350,6 +403,15 @@ def gen_list_op(R, nm, shadow):
         return f"ldel {nm} {i}"
     if k == "ldelslice":
         return f"ldelslice {nm} {idx()} {idx()}"
+    if k == "ldelslicex":
+        return f"ldelslicex {nm} {slc()}"
+    if k == "lsetslicex":
+        sl = slc()
+        a, b, c = (oi(x) for x in sl.split())
+        want = len(range(*slice(a, b, c).indices(ln))) if c != 0 else 0
+        # an extended slice takes exactly as many items as it selects: mostly that many, sometimes not (rejected)
+        m = want if R.random() < 0.8 else R.choice([0, 1, 2, 3])
+        return f"lsetslicex {nm} {sl} {ints_arg([val() for _ in range(m)])}"
     if k == "linsert":
         return f"linsert {nm} {idx()} {val()}"
     if k == "lappend":
@@ -389,6 +451,10 @@ def shadow_apply(shadow, line):
             del d[int(w[2])]
         elif k == "ldelslice":
             del d[int(w[2]):int(w[3])]
+        elif k == "lsetslicex":
+            d[slice(oi(w[2]), oi(w[3]), oi(w[4]))] = parse_ints(w[5])
+        elif k == "ldelslicex":
+            del d[slice(oi(w[2]), oi(w[3]), oi(w[4]))]
         elif k == "linsert":
             d.insert(int(w[2]), int(w[3]))
         elif k == "lappend":
@@ -407,15 +473,46 @@ def shadow_apply(shadow, line):
         pass
 
 
+def gen_act(R, decls, nh, me, passive):
+    """one registry call of handler `me` that is accepted whatever the state: mostly about itself (one-shot handlers).
+    Only handlers without a program (`passive`) are subscribed by a handler: on code that walks the live list a handler
+    that subscribes a subscribing handler would never return"""
+    kind = dict(decls)
+    names = [n for n, _ in decls]
+    k = R.random()
+    other = R.randrange(nh)
+    if k < 0.15:
+        return f"c.{R.choice(['*'] + list(map(str, names)))}"
+    verb = "u" if (k < 0.7 or not passive) else "o"
+    who = (me if R.random() < 0.7 else other) if verb == "u" else R.choice(passive)
+    n = "*" if R.random() < 0.3 else str(R.choice(names))
+    if R.random() < 0.4:
+        t = "*"
+    elif n == "*":
+        t = "change"
+    else:
+        t = R.choice(KIND_TYPES[kind[int(n)]])
+    return f"{verb}.{n}.{t}.{who}"
+
+
 def gen_sig_scenario(R, rejecting=False, n_ops=None):
     header, decls = gen_sig_header(R)
     names = [n for n, _ in decls]
     lsts = [n for n, k in decls if k == "lst"]
     obss = [n for n, k in decls if k == "obs"]
-    lines = [header]
     shadow = {}
     nh = R.randrange(2, 6)
     dead = set()
+    if R.random() < 0.25:
+        # re-entrant handlers: 1-2 of them make registry calls while they are being notified
+        toks = header.split()
+        at = len(toks) - 1 if toks[-1] == "natural" else len(toks)
+        active = R.sample(range(nh), R.choice([1, 1, 2]))
+        passive = [h for h in range(nh + 2) if h not in active]
+        for h in active:
+            toks.insert(at, f"prog:{h}:" + ",".join(gen_act(R, decls, nh, h, passive) for _ in range(R.choice([1, 1, 2]))))
+        header = " ".join(toks)
+    lines = [header]
 
     def live_h():
         c = [h for h in range(nh) if h not in dead]
@@ -505,10 +602,26 @@ def _matches(sel, x):
 def oracle_sig(sc, obs):
     tr = sc.meta.get("trace") or []
     bad = []
-    toks = [t for t in sc.lines[0].split()[2:] if t not in ("|", "natural")]
+    toks = [t for t in sc.lines[0].split()[2:] if t not in ("|", "natural") and not t.startswith(("prog:", "ovr:"))]
+    progs = {int(t.split(":")[1]): t.split(":")[2].split(",") for t in sc.lines[0].split()[2:] if t.startswith("prog:")}
     decls = [(int(t.split(":")[0]), t.split(":")[1]) for t in toks]
     kind = dict(decls)
     spec = {(n, t): [] for n, k in decls for t in KIND_TYPES[k]}   # subscriptions in subscription order
+
+    def apply_act(act):
+        """a registry call made by a handler (always an accepted one) on the subscription table"""
+        a = act.split(".")
+        for (x, ty) in spec:
+            if not _matches(a[1], x):
+                continue
+            if a[0] == "c":
+                spec[(x, ty)] = []
+            elif _matches(a[2], ty):
+                if a[0] == "o":
+                    spec[(x, ty)].append(int(a[3]))
+                else:
+                    spec[(x, ty)] = [g for g in spec[(x, ty)] if g != int(a[3])]
+
     dead = set()
     replica = {}          # list name -> the listener's copy
     obsval = {}           # observable -> last value
@@ -575,12 +688,22 @@ def oracle_sig(sc, obs):
             _, n, ty, old, new, idx, keys = nt
             got = []
             p += 1
-            while p < len(body) and body[p][0] == "deliver":
-                got.append(body[p])
+            while p < len(body) and body[p][0] in ("deliver", "act"):
+                if body[p][0] == "deliver":
+                    got.append(body[p])
                 p += 1
-            want = [h for h in spec.get((n, ty), []) if h not in dead]
+            # the live subscribers the signal had when it was emitted, in order; one that a handler called before it has
+            # unsubscribed meanwhile (unobserve / clear_all_subscriptions) receives nothing more; the calls of a handler
+            # take effect when it is called
+            want = []
+            for h in [h for h in spec.get((n, ty), []) if h not in dead]:
+                if h in spec[(n, ty)]:
+                    want.append(h)
+                    for act in progs.get(h, ()):
+                        apply_act(act)
             if [g[1] for g in got] != want:
-                bad.append(f"delivery: signal {n}/{ty} of `{ev[1]}` reached {[g[1] for g in got]}, subscribed (in order) {want}")
+                bad.append(f"delivery: signal {n}/{ty} of `{ev[1]}` reached {[g[1] for g in got]}, subscribed (in order, at "
+                           f"their turn) {want}")
             for g in got:
                 if g[2:7] != (n, ty, old, new, idx) or not g[7]:
                     bad.append(f"payload: handler {g[1]} got {g[2:8]} for notify {(n, ty, old, new, idx)}")
@@ -601,6 +724,9 @@ def oracle_sig(sc, obs):
                 if after_vals[int(w[1])] != w[2]:
                     bad.append(f"store: after `{ev[1]}` the value is {after_vals[int(w[1])]}")
             for n, d in replica.items():
+                if after_vals[n] is None:
+                    bad.append(f"replica-diverged: after `{ev[1]}` list {n} cannot be read, the listener's copy {fmt_ints(d)}")
+                    continue
                 if after_vals[n] != fmt_ints(d):
                     bad.append(f"replica-diverged: after `{ev[1]}` list {n} is {after_vals[n]}, the listener's copy {fmt_ints(d)}")
                     replica[n] = parse_ints(after_vals[n][1:-1] or "-")
@@ -632,20 +758,20 @@ def _apply_replica(d, ty, old, new, idx):
             if new != "N":
                 return "new should be None"
             if ".." in idx:
-                a, b = map(int, idx.split(".."))
-                if old != fmt_ints(d[a:b]):
-                    return f"old payload {old}, removed items were {fmt_ints(d[a:b])}"
-                del d[a:b]
+                sl = slice(*(oi(x) for x in idx.split("..")))
+                if old != fmt_ints(d[sl]):
+                    return f"old payload {old}, removed items were {fmt_ints(d[sl])}"
+                del d[sl]
             else:
                 if old != str(d[int(idx)]):
                     return f"old payload {old}, removed item was {d[int(idx)]}"
                 del d[int(idx)]
         elif ty == "replace":
             if ".." in idx:
-                a, b = map(int, idx.split(".."))
-                if old != fmt_ints(d[a:b]):
-                    return f"old payload {old}, replaced items were {fmt_ints(d[a:b])}"
-                d[a:b] = L(new)
+                sl = slice(*(oi(x) for x in idx.split("..")))
+                if old != fmt_ints(d[sl]):
+                    return f"old payload {old}, replaced items were {fmt_ints(d[sl])}"
+                d[sl] = L(new)
             else:
                 if old != str(d[int(idx)]):
                     return f"old payload {old}, replaced item was {d[int(idx)]}"
@@ -657,6 +783,13 @@ def _apply_replica(d, ty, old, new, idx):
 
 def tags_sig(sc, obs):
     yield "natural-set-order" if "natural" in sc.lines[0].split() else "forced-set-order"
+    if "prog:" in sc.lines[0]:
+        yield "mode:reentrant-handlers"
+        acts = [e for e in (sc.meta.get("trace") or []) if e[0] == "act"]
+        for e in acts:
+            yield "branch:handler-called-" + {"o": "observe", "u": "unobserve", "c": "clear"}[e[2][0]] + "-while-notified"
+            if e[2][0] == "u" and e[2].split(".")[3] == str(e[1]):
+                yield "branch:handler-unsubscribed-itself-while-notified"
     yield f"classes:{sc.lines[0].split().count('|') + 1}"
     for l, o in zip(sc.lines[1:], obs[1:]):
         w = l.split()
